@@ -46,6 +46,19 @@ Theorem C09_denote_total : forall d args, wfd d = true ->
 Proof. intros d args H. exact (denote_total d H args). Qed.
 Print Assumptions C09_denote_total.
 
+(* ... and "building its body directly with the same inputs": the inlined definition (parameters replaced
+   by the values, no interface) is valid again, and running it leaves in its outputs exactly the values
+   plain composition gives to the returned child channels (parameters passed straight through are the
+   values themselves) *)
+Theorem C09_equals_inlined_body_partial : forall d args l' s' v0',
+  wfd d = true -> rets_distinct d = true -> List.length args = List.length (d_params d) -> all_data args = true ->
+  build (inline d args) l' = Some (s', v0') ->
+  exists v' c ps E, run s' v0' = Some (v', c, ps) /\
+    denote d args = Some (map (fun la => env_val args E (snd la)) (d_rets d)) /\
+    v_outs v' = map (fun la => env_val args E (snd la)) (aout_rets (d_rets d)).
+Proof. exact inlined_run. Qed.
+Print Assumptions C09_equals_inlined_body_partial.
+
 (* REFUTED (C09-duplicate-return-replaces-link): `return self.c, self.c` under two labels: the second
    value link replaces the first, the first output stays NOT_DATA although python returns the value twice *)
 Definition dup_def : mdef :=
@@ -98,9 +111,11 @@ Qed.
 Print Assumptions C09_distinct_io.
 
 (* ---- synchronisation, the directions the code implements ------------------------------------- *)
+(* The property's "whichever side is updated" is REFUTED below; these are the two directions that hold
+   (named _partial for that reason: they are complete statements about their own direction). *)
 (* DOWN, after ANY history of operations (child-level and output-side ones included): a macro-level
    input update reaches every linked child input, through any nesting *)
-Theorem C09_sync_down : forall d l s v0 ops v k x,
+Theorem C09_sync_down_partial : forall d l s v0 ops v k x,
   build d l = Some (s, v0) -> apply_ops s v0 ops = Some v -> k < List.length (d_params d) ->
   get_in (set_in s v k x) [] k = x /\
   forall pk, In pk (down_chain s k) -> get_in (set_in s v k x) (fst pk) (snd pk) = x.
@@ -111,11 +126,11 @@ Proof.
   - apply (apply_ops_vshape s ops v0 v); auto. now apply (coh_vshape d).
   - now rewrite (wired_nins d s Hw).
 Qed.
-Print Assumptions C09_sync_down.
+Print Assumptions C09_sync_down_partial.
 
 (* UP, after ANY history: an update of any child output through the setter (at any depth) reaches every
    macro output it is linked to, through any nesting *)
-Theorem C09_sync_up : forall d l s v0 ops v p lo x,
+Theorem C09_sync_up_partial : forall d l s v0 ops v p lo x,
   build d l = Some (s, v0) -> apply_ops s v0 ops = Some v ->
   forall qo, In qo (fst (up_chain s p lo)) -> get_out (fst (set_out_at s v p lo x)) (fst qo) (snd qo) = x.
 Proof.
@@ -124,17 +139,17 @@ Proof.
   - now apply (wired_sranges d).
   - apply (apply_ops_vshape s ops v0 v); auto. now apply (coh_vshape d).
 Qed.
-Print Assumptions C09_sync_up.
+Print Assumptions C09_sync_up_partial.
 
 (* PARTIAL ("always hold the same values"): after every history of macro-level input assignments and
    runs, EVERY value-linked pair of channels, at every depth, holds equal values (inputs with the child
    inputs they forward to, outputs with the child outputs they receive from).  Missing: histories with
    an update applied on the receiving side of a value link (refuted below, S14). *)
-Theorem C09_sync_partial : forall d l s v0 ops v,
+Theorem C09_sync_always_partial : forall d l s v0 ops v,
   wfd d = true -> rets_distinct d = true -> build d l = Some (s, v0) ->
   Forall macro_level ops -> apply_ops s v0 ops = Some v -> synced s v.
 Proof. exact sync_partial. Qed.
-Print Assumptions C09_sync_partial.
+Print Assumptions C09_sync_always_partial.
 
 (* REFUTED (S14, child input): `m.c.inputs.a = 7` is not mirrored to the macro input it is linked from *)
 Definition one_def : mdef :=
@@ -221,5 +236,5 @@ Example C09_hyps_hold_static : forall s v0, build outer_def "m" = Some (s, v0) -
 Proof.
   intros s v0 H. split; [apply (C09_closed outer_def "m" s v0); auto|].
   split; [apply (C09_interface outer_def "m" s v0 H)|].
-  apply (C09_sync_partial outer_def "m" s v0 [] v0); auto.
+  apply (C09_sync_always_partial outer_def "m" s v0 [] v0); auto.
 Qed.
